@@ -58,7 +58,7 @@ W_DEFT = deftype_case()
 class C20(C10):
     ID = 'C20'
     PROPS = 'props/C20.v'
-    QUICK_CASES = 150
+    QUICK_CASES = 110
     THOROUGH_CASES = 1500
     RULE = ('generated DEF FN sets (1..4 functions, 0..4 parameters of all four types, parameters that shadow globals '
             'and parameters that do not exist yet, bodies that read parameters and globals, allocate strings, call '
@@ -67,8 +67,8 @@ class C20(C10):
             'all variables, current, _temp and free memory compared with the model after every step; oracle: dict '
             'reference semantics in which a call binds, evaluates and restores. non-trivial = a function call returned')
     TRUSTED = C10.TRUSTED
-    PARTIAL = ('binding of the parameters to the converted arguments during the body (C20_binding_statement) is '
-               'tested by correspondence and the oracle, not proved')
+    PARTIAL = ('C20_binding (parameter = converted argument of its last occurrence when the body starts) is proved on '
+               'the binding loop; its composition with the argument/save loops of evaluate_call is not one theorem')
 
     def corpus(self):
         return [dict(w) for w in (W_D15, W_D20A, W_D20B, W_ARGERR, W_RECURSION, W_D10D_ALIAS, W_DUP, W_DEFT)] + [
